@@ -546,6 +546,46 @@ def explore_dispatch(ctx):
 
 DISPATCH_LAWS = ["classification", "composite", "rejects"]
 
+
+def explore_freshness(ctx):
+    """A codec object renders the value it holds *now*: after the value
+    attribute is re-assigned, to_ical gives what a fresh object would give."""
+    model = ctx.model
+    F = Findings()
+    d, n, u = DT("date", 2, {"d": 1}), DT("naive", 2, {"d": 1}), DT("utc", 2, {"d": 1})
+    cases = [("prop.vDDDTypes", [(d, n), (n, d), (n, u), (u, n), (d, _td(3600)), (_td(60), _td(86400))]),
+             ("prop.vDatetime", [(n, u), (u, n)]),
+             ("prop.vDuration", [(_td(60), _td(-86400)), (_td(86400), _td(45))]),
+             ("prop.vUTCOffset", [(_td(3600), _td(-19800))])]
+    for cq, pairs in cases:
+        ci = model.cls(cq)
+        for first, second in pairs:
+            F.n += 1
+            it = CodecInterp(model)
+            try:
+                obj = it.instantiate(ci, [first], {})
+                holders = [k for k, v in obj.attrs.items() if v is first]
+                if not holders:
+                    continue
+                for h in holders:
+                    it.setattr(obj, h, second)
+                got = it.call(it.getattr(obj, "to_ical"), [], {})
+                fresh = it.call(it.getattr(it.instantiate(ci, [second], {}), "to_ical"), [], {})
+                if got != fresh:
+                    sh = lambda b: describe(b.decode() if isinstance(b, bytes) else str(b))
+                    F.add("fresh", f"{ci.name}: after the held value is re-assigned, to_ical still "
+                          f"renders it as the value (type) given at construction",
+                          attribute=holders[0], rendered=sh(got), fresh_object_renders=sh(fresh))
+            except AbsRaise as e:
+                F.add("fresh", f"{ci.name}: to_ical after re-assigning the held value raises {e.cls_name}",
+                      first=repr(first), second=repr(second))
+            except Unsupported as e:
+                raise AnalysisError(f"{cq}: freshness check leaves the abstract interface: {e}")
+    return F
+
+
+FRESH_LAWS = ["fresh"]
+
 # ---------------------------------------------------------------------------
 _CACHE = {}
 
